@@ -22,9 +22,9 @@ RULES = [
     (("", "os.Getenv(\"APKO_APK_HOST\")"), ("declared-input", "credentials")),
     (("", "os.Getenv(\"HTTP_AUTH\")"), ("declared-input", "credentials")),
     (("", "SOURCE_DATE_EPOCH"), ("declared-input", "the build date is a declared input")),
-    (("groupByOriginAndSize", ""), ("perm-thm", "C10 group_perm_invariant")),
-    (("unify", "UnsortedList"), ("perm-thm", "C09 unify_perm_invariant (set differences / deletes)")),
-    (("unify", "acc.provided"), ("perm-thm", "C09 unify_perm_invariant")),
+    (("groupByOriginAndSize", ""), ("perm-thm", "C10 group_perm_invariant (proved: the whole result incl. the error outcome is independent of the four map orders)")),
+    (("unify", "UnsortedList"), ("perm-thm-partial", "C09 unify_perm_invariant_partial / _common: two successful runs on permuted architecture lists agree; F09g: the ERROR outcome can depend on the order (stale acc.provided)")),
+    (("unify", "acc.provided"), ("perm-thm-partial", "C09 unify_perm_invariant_partial; F09g")),
     (("unify", "s"), ("sorted", "sort.Strings(versionClusters) — C01 sort_perm_invariant (error text only)")),
     (("LoadIndex", "os.Getenv"), ("off-path", "publish/load path only")),
     (("buildImageComponents", "configs"), ("comm", "one goroutine per arch; images stored in a map keyed by arch, build date by max — C01 insert_perm_lookup")),
@@ -45,7 +45,7 @@ RULES = [
     (("New", "dirCount"), ("comm", "per-directory counters")),
     (("New", "fsys.dirs"), ("sorted", "per-directory sort")),
     (("LockImageConfiguration", "pls"), ("comm", "map to map")),
-    (("LockImageConfiguration", "toInstalls"), ("perm-thm", "C09 unify_perm_invariant (inputs[0] seeds the accumulator)")),
+    (("LockImageConfiguration", "toInstalls"), ("perm-thm-partial", "C09 unify_perm_invariant_partial (inputs[0] seeds the accumulator); F09g")),
     (("MultiArch.", "m.Contexts"), ("comm", "map to map / goroutine results keyed by arch")),
     (("NewMultiArch", "m.Contexts"), ("comm", "map to map")),
     (("BuildImageFromLayers", "env"), ("sorted", "sort.Strings(envs) — C01 sort_perm_invariant")),
